@@ -26,7 +26,7 @@ RULE = (
 
 BINOPS = [("add", lambda x, y: x + y), ("sub", lambda x, y: x - y), ("mul", lambda x, y: x * y), ("div", lambda x, y: x / y),
           ("pow", lambda x, y: x**y), ("min", lambda x, y: x.minimum(y)), ("max", lambda x, y: x.maximum(y))]
-REGIMES = ["tagged", "dyadic", "real", "taint"]
+REGIMES = ["tagged", "dyadic", "real", "taint", "wide"]
 
 
 def do_pair(rec, hub, U, la, lb, regimes, rng):
